@@ -6,6 +6,9 @@ Q_FlusherOps == [f1 |-> "flushInf"]
 \* second quick config: fallible sends, a zero-timeout flusher and a panicking callback
 Q2_SenderOps == [s1 |-> <<"try", "send">>, s2 |-> <<"block0">>]
 Q2_FlusherOps == [f1 |-> "flush0", f2 |-> "cbPanic"]
+\* third quick config: a panicking callback and a waiting flusher on the same batch
+Q3_SenderOps == [s1 |-> <<"send", "try">>]
+Q3_FlusherOps == [f1 |-> "cbPanic", f2 |-> "flushInf", f3 |-> "cbPanic"]
 \* kill: the receiver future is dropped at an await point
 K_SenderOps == [s1 |-> <<"send", "blockInf">>, s2 |-> <<"try">>]
 K_FlusherOps == [f1 |-> "flush0"]
